@@ -164,8 +164,57 @@ def anyAmbiguous (db : Db) : Plan → Ctx → Bool
        | none => false)
   | .bin _ _ l r, ctx => anyAmbiguous db l ctx || anyAmbiguous db r ctx
 
+/-! is every construct of the plan one `denote` models? (otherwise `none` means "not modelled", not "fails") -/
+partial def exprModelled : PExpr → Bool
+  | .var _ _ => true
+  | .const _ => true
+  | .nary k args =>
+    (match k with
+     | .call fn => ["=", "!=", "<", "<=", ">", ">=", "+", "-", "*", "not", "is null", "is not null"].contains fn
+     | _ => true) && args.all exprModelled
+  | .unary _ e => exprModelled e
+
+def nodeModelled : Plan → Bool
+  | .leaf _ (.tvf _ _) => false
+  | .un _ (.tvf name _ _) _ => name == "max_diff_watermark"
+  | .un _ (.groupBy aggs _ _ _ trig) _ => trig == "eos" && aggs.all fun a => ["count", "sum", "min", "max"].contains a
+  | _ => true
+
+def planModelled : Plan → Bool
+  | .leaf s k => nodeModelled (.leaf s k) && (nodeExprs (.leaf s k)).all exprModelled
+  | .un s k src => planModelled src && nodeModelled (.un s k src) && (nodeExprs (.un s k src)).all exprModelled
+  | .bin s k l r => planModelled l && planModelled r && (nodeExprs (.bin s k l r)).all exprModelled
+
+/-- `plan` ops: the plan the REAL optimizer printed, read by the Lean semantics on the op's tables, must compute the
+    same bag as the input plan (a semantic oracle on `optimizer.Optimize` itself, without running the binary) -/
+def judgePlan (rest out : List String) : String :=
+  if out == ["panic"] then "bad optimizer-panics"
+  else
+    let (_, r) := splitAt "@TABLES" rest
+    match r with
+    | n :: r =>
+      match parseTables n.toNat! r with
+      | some (ts, r) =>
+        match parsePlan (splitAt "@P0" r).2, parsePlan out with
+        | some (p0, _), some (p1, _) =>
+          let db := dbOf ts
+          if !planModelled p0 then "ok unmodelled" else
+          match denote db p0 [], denote db p1 [] with
+          | some ra, some rb =>
+            if renderSorted ra == renderSorted rb then "ok"
+            else if anyAmbiguous db p0 [] then
+              "known orderby-limit-tiebreak-pruning rows differ only through the tie-break of an ambiguous ORDER BY … LIMIT cut"
+            else "bad optimized-plan-computes-different-rows"
+          | some _, none => "bad optimized-plan-fails"
+          | none, _ => "ok unmodelled"
+        | _, _ => "ok unparsed"
+      | none => "bad unparsable-op"
+    | [] => "bad unparsable-op"
+
 def judge (toks : List String) (out : List String) : String :=
   match toks with
+  | "plan" :: rest => judgePlan rest out
+  | "raw" :: _ => if out == ["panic"] then "bad optimizer-panics" else "ok"
   | "optq" :: rest =>
     let (a, b) := splitAt "B" (out.drop 1)
     if out.head? != some "A" then "bad unparsable-impl-output"
